@@ -185,7 +185,9 @@ def classify(job: Job, text: str, timed_out: bool, rc: int, js_path: str):
         failed.append({"check": blk.group(1), "status": blk.group(2), "description": blk.group(3), "location": blk.group(4).strip()})
     job.failed_checks = failed
     if "VERIFICATION:- SUCCESSFUL" in text:
-        if job.covers[1] and job.covers[0] < job.covers[1]:
+        if job.kind == "kf" and job.covers[1] and job.covers[0] < job.covers[1]:
+            job.status, job.reason = "SUCCESS", "finding's inputs do not occur in this instance"
+        elif job.covers[1] and job.covers[0] < job.covers[1]:
             job.status, job.reason = "INCONCLUSIVE", "vacuous: %d of %d covers satisfied" % job.covers
         elif job.covers[1] == 0:
             job.status, job.reason = "INCONCLUSIVE", "no cover property (vacuity witness missing)"
@@ -405,7 +407,9 @@ def _run(pid, spec, known, tier, seed, workdir, logdir, t0, only) -> int:
     obs = select(asm.obligations, tier, seed, only)
     jobs: List[Job] = []
     for ob in obs:
-        jobs.append(Job(ob, "__main", "main"))
+        if ob.raw.get("main", "yes") != "no":
+            # (main=no: every input of this instance is a listed known finding; only its witness runs)
+            jobs.append(Job(ob, "__main", "main"))
         for i, kf in enumerate(asm.known_for(ob.kfgroup), start=1):
             jobs.append(Job(ob, "__kf%d" % i, "kf", kf))
     scale = float(os.environ.get("VERIF_TIME_SCALE", "1.0"))
@@ -475,6 +479,8 @@ def finish(pid, spec, asm, tier, seed, jobs: List[Job], t0, fatal: Optional[str]
             if j.status == "VIOLATION":
                 lines.append("KNOWN-FINDING: property=%s %s [%s] %s" % (pid, kf["id"], j.ob.id, kf["what"]))
                 samples.append({"known_finding": kf["id"], "obligation": j.ob.id, "still_fails": True, "failed_check": j.reason[:200]})
+            elif j.status == "SUCCESS" and j.reason:
+                samples.append({"known_finding": kf["id"], "obligation": j.ob.id, "applies_here": False})
             elif j.status == "SUCCESS":
                 lines.append("note: listed finding %s no longer fails on this tree (nothing suppressed for it beyond its input)" % kf["id"])
                 samples.append({"known_finding": kf["id"], "obligation": j.ob.id, "still_fails": False})
